@@ -4,6 +4,7 @@ R2.1 invalidate-on-merge: a successful weak merge re-opens the merged state (clo
 R2.2 exact-before-weak: candidates are first compared for equality; only if none is equal is weak compatibility tried
 R2.3 Pager's three conditions in weakly_compatible (16 valuations, exhaustive) + equal cores checked first
 R2.4 gc precedes StateGraph::new
+R2.5 re-processing a state overwrites all of its edges (sibling agreement of the edge-recording sites)
 """
 from mirlib import *
 from lrstep import is_call, has_call, find_calls, loop_assigned
@@ -201,7 +202,46 @@ def r24(facts, res):
         res.bad(R, 'gc-before-graph', loc_of(b), 'StateGraph::new can be reached without garbage collection')
 
 
+def r25(facts, res):
+    """re-processing a state regenerates ALL its edges: every site that records an edge of the state being processed must
+    overwrite a previous edge on that symbol (sibling agreement of the three recording sites)"""
+    R = 'R2.5'
+    b = pager(facts, R)
+    wm = b.calls_named('weakly_merge')
+    if not wm:
+        res.lost(R, 'weakly_merge call not found')
+        return
+    loops = b.loops()
+    inl = [h for h in loops if wm[0][0] in loops[h]]
+    drain = min(inl, key=lambda h: len(loops[h]))
+    # the edge table: the Vec<HashMap<Symbol, StIdx>> local
+    et = [i for i, l in enumerate(b.locals) if l['ty'].startswith('alloc::vec::Vec<std::collections::hash::map::HashMap<cfgrammar::Symbol<') and b.name_of(i)]
+    if not et:
+        res.lost(R, 'edge table local not found')
+        return
+    ets = set(et)
+    sites = []
+    for bb, t in b.calls(blocks=loops[drain]):
+        if not t['args']:
+            continue
+        l0 = op_local(t['args'][0])
+        if l0 is None or not b.lty(l0).startswith('&mut std::collections::hash::map::HashMap<cfgrammar::Symbol<'):
+            continue
+        r, projs, via = b.op_root(t['args'][0], through=Body.THROUGH + ('index_mut',))
+        if r in ets:
+            sites.append((bb, cname(t)))
+    res.floor(R, 'edge-recording sites while processing a state', len(sites), 3)
+    bad = [(bb, nm) for bb, nm in sites if nm != 'insert']
+    if bad:
+        res.bad(R, 'edges-overwrite', loc_of(b, bad[0][0]),
+                'an edge of the state being (re)processed is recorded with `%s` while its siblings use the overwriting `insert`: after a merge forces the '
+                'state to be re-closed, a stale edge to the old successor survives and the correct successor is garbage-collected' % bad[0][1])
+    elif sites:
+        res.ok(R, 'edges-overwrite', loc_of(b, sites[0][0]), 'all %d edge-recording sites overwrite a previous edge on the same symbol' % len(sites))
+
+
 def run(facts, res):
+    r25(facts, res)
     r21(facts, res)
     r22(facts, res)
     r23(facts, res)
